@@ -8,7 +8,7 @@
  *   b3 entry point: 0 str, 1 str+fitting, 2 counting, 3 file, 4 file counting,
  *                   5 two calls on the same instance (text split at the middle)
  *   b4 chunk size (0..255; counting uses it directly, incl. 0 and 1)
- *   b5 buffer: even = caller buffer (length from b6), odd = library buffer
+ *   b5 buffer: even = caller buffer (length from b6), odd = library buffer; bits 1+2 both set: debug printing on
  *   b6 caller buffer length selector     b7 start offset selector
  * Also usable without libFuzzer: -DFUZZ_STANDALONE gives a main() that replays files.
  */
@@ -61,6 +61,8 @@ int LLVMFuzzerTestOneInput(const uint8_t *data, size_t size) {
   asm_sib_no_base(al, (enum asm_opt)c[2]);
   if (c[7] & 0x80)
     asm_set_all(al, (enum asm_opt)(c[7] & 3));
+  if ((c[5] & 6) == 6)
+    asm_set_debug(al, true); /* the printers run as well (stdout is closed or /dev/null under the fuzzer) */
   if (buf) {
     int start = (c[7] & 0x7f) * blen / 127; /* 0..blen */
     if (start > blen)
